@@ -63,16 +63,23 @@ def _conn_of(c):
 class Src:
     """the streamed sources: items are unique [stream slot, index] pairs"""
 
-    def gen(self, slot, n, bad):
+    def gen(self, slot, n, bad, fin=False):
         _obs("create", slot, _conn_of(cctx.client))
 
         def g():
-            for i in range(n + 1):
-                if i == bad:
-                    raise ValueError("boom-%d-%d" % (slot, i))
-                if i == n:
-                    return
-                yield [slot, i]
+            try:
+                for i in range(n + 1):
+                    if i == bad:
+                        raise ValueError("boom-%d-%d" % (slot, i))
+                    if i == n:
+                        return
+                    yield [slot, i]
+            except GeneratorExit:
+                if fin:
+                    # clean-up code that fails when the generator is closed before it is exhausted (dropped by the server, or
+                    # closed explicitly): nobody's business but the generator's
+                    raise OSError("clean-up of stream source %d failed" % slot)
+                raise
         return g()
 
     def lst(self, slot, n, bad):
@@ -114,6 +121,44 @@ class SeqIndexed(SeqBase):
         if not 0 <= i < self.n:
             raise IndexError(i)
         return [7, i]
+
+
+@api.expose
+class BackNote:
+    """served by the in-thread daemon of NestSrc"""
+
+    def __init__(self):
+        self.n = 0
+
+    def note(self):
+        self.n += 1
+        return self.n
+
+
+@api.expose
+class NestSrc:
+    """focus shape 'nested serve': before it hands out its iterator the method serves a request of ANOTHER daemon in its own
+    thread (an application that pumps a second, loop-less daemon from inside a call: daemon.events(ready sockets))"""
+
+    def __init__(self, back, note):
+        self._back, self._note = back, note
+
+    def gen_nested(self, n):
+        sched = _Run.cur["sched"]
+        want = self._note.n + 1
+        for _ in range(400):
+            sel = N.SimSelector(_Run.cur["net"])
+            for sk in self._back.sockets:
+                sel.register(sk, 1)
+            ready = [k.fileobj for k, _ in sel.select(0)]
+            sel.close()
+            if ready:
+                self._back.events(ready)
+            if self._note.n >= want:
+                break
+            sched.sleep(0.01)
+        sched.ev("nested-served", self._note.n >= want)
+        return ([8, i] for i in range(n))
 
 
 @api.expose
@@ -272,7 +317,7 @@ class StreamWorld(World):
               "reconnect_within_linger", "reconnect_after_linger", "terminated_error", "client_local_closed",
               "streaming_disabled", "two_proxies", "concurrent_streams", "multiplex", "thread", "housekeeping_observed",
               "temp_proxy_close", "client_local_stop", "preempted", "raced",
-              "connection_dropped", "continued_after_drop", "concurrent_ops", "client_correlation_id", "disconnect_during_table_change", "chatter", "combined", "combined_slave_idle_expiry", "external_loop", "reply_lost", "continued_after_lost_reply", "fetch_during_disconnect", "stalled", "foreign_thread_close", "foreign_thread_finalize", "transient_socket_errors", "slow_fetch_timed_out", "iterated_proxy", "iterated_proxy_generator_raises", "unserializable_item"]
+              "connection_dropped", "continued_after_drop", "concurrent_ops", "client_correlation_id", "disconnect_during_table_change", "chatter", "combined", "combined_slave_idle_expiry", "external_loop", "reply_lost", "continued_after_lost_reply", "fetch_during_disconnect", "stalled", "foreign_thread_close", "foreign_thread_finalize", "transient_socket_errors", "slow_fetch_timed_out", "iterated_proxy", "iterated_proxy_generator_raises", "unserializable_item", "source_cleanup_raises", "nested_request_served_in_call"]
     # also counted, but too schedule-dependent to demand: "fetch_before_old_disconnect", "expired_but_still_answers"
     RULE = ("plan = (server type, serializer, ITER_STREAMING on/off, ITER_STREAM_LIFETIME in {0,5,20}, ITER_STREAM_LINGER in "
             "{0,3,10}, 18% of the multiplex plans 'combined': the streams live on a second daemon served by the first one's loop (Daemon.combine), "
@@ -349,6 +394,13 @@ class StreamWorld(World):
                     "slowfetch": {"k": k, "n": k + rng.randint(2, 4), "slow": rng.choice([3.0, 6.0]), "timeout": 1.0,
                                   "wait_more": rng.choice([0.0, 2.0, 12.0]), "settle_before_close": rng.random() < 0.3},
                     "p_block": rng.choice([0.0, 0.0, 0.3]), "net": {"shuffle_select": rng.random() < 0.5}}
+        if rng.random() < 0.04:
+            # focus shape "nested serve": the method that opens the stream first serves a request of another (loop-less) daemon in
+            # its own thread; then the client fetches, leaves for longer than the linger period, and comes back: an error, no item
+            return {"servertype": rng.choice(["thread", "multiplex"]), "serializer": rng.choice(SERIALIZERS), "streaming": True,
+                    "lifetime": 0, "linger": rng.choice([0, 3, 10]), "nproxies": 1, "streams": [], "ops": [],
+                    "nested": {"n": rng.randint(3, 6), "fetch": rng.randint(0, 2), "how": rng.choice(["release", "drop"])},
+                    "p_block": rng.choice([0.0, 0.0, 0.3]), "net": {"shuffle_select": rng.random() < 0.5}}
         if rng.random() < 0.05:
             # focus shape "iterate the proxy": for x in proxy -> the remote __iter__ generator is streamed; it raises an exception of
             # some class at some position (or not at all); the object may support indexing too
@@ -372,6 +424,8 @@ class StreamWorld(World):
             if kind == "gen" and rng.random() < 0.35:
                 bad = rng.randint(0, n)
             streams.append({"proxy": rng.randrange(nprox), "kind": kind, "n": n, "bad": bad})
+            if kind == "gen" and rng.random() < 0.2:
+                streams[-1]["fin"] = True       # its clean-up code raises when it is closed / dropped early
         if nprox == 2 and nstreams >= 2:
             streams[0]["proxy"], streams[1]["proxy"] = 0, 1
         nops = rng.randint(6, 34 if big else 26)
@@ -637,7 +691,7 @@ class StreamWorld(World):
         config.ITER_STREAM_LINGER = float(plan["linger"])
         config.MAX_RETRIES = int(plan.get("retries") or 0)
         ctx.probe(plan["servertype"])
-        run = _Run.cur = {"sched": sched, "obs": []}
+        run = _Run.cur = {"sched": sched, "obs": [], "net": ctx.net}
         its = {}
         variant = "combined" if plan.get("combined") else ("external-loop" if plan.get("external_loop") else None)
         if variant:
@@ -651,12 +705,84 @@ class StreamWorld(World):
                 self._slowfetch(ctx, run, its)
             elif plan.get("iterproxy"):
                 self._iterproxy(ctx, run, its)
+            elif plan.get("nested"):
+                self._nested(ctx, run, its)
             else:
                 self._drive(ctx, run, its)
         finally:
             _Run.cur = None
             for it in its.values():     # _StreamResultIterator.__del__ calls close(): make that a no-op at teardown
                 it.proxy = None
+
+    def _nested(self, ctx, run, its):
+        """focus shape 'nested serve' (own small oracle; see gen)"""
+        import Pyro5.core as core
+        plan, sched, ns = ctx.plan, ctx.sched, ctx.plan["nested"]
+        srv = Server(ctx, plan["servertype"], daemon_cls=ObsDaemon, polltimeout=POLL)
+        daemon = srv.daemon
+        config.SERVERTYPE = "multiplex"
+        back = SV.Daemon(host="127.0.0.1", port=0)          # never run by a loop of its own
+        config.SERVERTYPE = plan["servertype"]
+        note = BackNote()
+        back_uri = back.register(note, "note")
+        uri = srv.register(NestSrc(back, note), "nest")
+        done = {"cb": None}
+
+        def callback_client():
+            try:
+                with CL.Proxy(back_uri) as q:
+                    q._pyroTimeout = 30.0
+                    done["cb"] = q.note()
+            except Exception as x:  # noqa
+                done["cb"] = "error: %r" % (x,)
+
+        cb = threading.Thread(target=callback_client, name="client-callback")
+        cb.start()
+        px = CL.Proxy(uri)
+        try:
+            it = its[0] = px.gen_nested(ns["n"])
+        except Exception as x:  # noqa
+            ctx.disturbed = "opening the stream failed: %s: %s" % (type(x).__name__, x)
+            return
+        cb.join(60.0)
+        if done["cb"] != 1:
+            ctx.disturbed = "the nested request was not served inside the call: %r" % (done["cb"],)
+            return
+        ctx.probe("nested_request_served_in_call")
+        ctx.nontrivial = True
+        sid = it.streamId
+        for i in range(ns["fetch"]):
+            v = next(it)
+            if list(v) != [8, i]:
+                ctx.violate("wrong-item", "nested-serve", "item %d arrived as %r" % (i, v))
+                return
+            ctx.probe("item")
+        # the client leaves (orderly, or its connection is reset) and stays away for longer than the linger period
+        if ns["how"] == "drop":
+            c, s_ = ctx.net.conns[px._pyroConnection.sock.conn]
+            break_conn(c, s_)
+        px._pyroRelease()
+        sched.settle()
+        away = float(plan["linger"]) + 2 * POLL + 2
+        sched.sleep(away)
+        sched.settle()
+        what = "stream %s (opened by a method that served a nested request first), client away for %.0f s, linger %s" % (sid[:8], away, plan["linger"])
+        if sid in daemon.streaming_responses:
+            ctx.violate("stream-leaked", "nested-serve", "%s: still in the server's table" % what)
+        try:
+            px._pyroReconnect(tries=3)
+            r = px._pyroInvoke("get_next_stream_item", [sid], {}, objectId=core.DAEMON_NAME)
+            ctx.violate("item-after-forgotten", "nested-serve", "%s: the returning client got %r" % (what, r))
+        except StopIteration:
+            ctx.violate("answer-after-forgotten", "nested-serve", "%s: the returning client got StopIteration (stream still known)" % what)
+        except E.CommunicationError as x:
+            ctx.disturbed = "the probe fetch lost its connection: %s" % x
+        except Exception as x:  # noqa
+            ctx.probe("terminated_error" if "terminated" in str(x) else "terminated_other_error")
+        it.proxy = None
+        px._pyroRelease()
+        back.close()
+        daemon.shutdown()
 
     def _iterproxy(self, ctx, run, its):
         """focus shape 'iterate the proxy' (own small oracle; see gen)"""
@@ -865,7 +991,11 @@ class StreamWorld(World):
             try:
                 if kind == "open":
                     sd = streams[s]
-                    r = getattr(proxy, "gen" if sd["kind"] == "gen" else "lst")(s, sd["n"], sd["bad"])
+                    if sd["kind"] == "gen" and sd.get("fin"):
+                        ctx.probe("source_cleanup_raises")
+                        r = proxy.gen(s, sd["n"], sd["bad"], True)
+                    else:
+                        r = getattr(proxy, "gen" if sd["kind"] == "gen" else "lst")(s, sd["n"], sd["bad"])
                     if isinstance(r, CL._StreamResultIterator):
                         its[s] = r
                         out = ("opened", r.streamId)
